@@ -29,6 +29,8 @@ def conditions(tier):
     cs.append(Cond(M, "interpolate_two_columns", {"vlen": 3, "tlen": 3, "fix": {"i1": 0}, "h2": "b"}, T=900, label="c09.two_columns[a,b; value<=3]"))
     cs.append(Cond(M, "interpolate_two_columns", {"vlen": 2, "tlen": 4, "fix": {"i1": 0}, "h2": ""}, T=900, label="c09.two_columns[a,''; value<=2]"))
     cs.append(Cond(M, "interpolate_two_columns", {"vlen": 3, "tlen": 4, "fix": {"i1": 0}, "h2": "bb"}, T=900, label="c09.two_columns[a,bb; value<=3]"))
+    cs.append(Cond(M, "two_columns_through_compile", {"vlen": 3, "tlen": 4, "h2": "bb"}, T=900, label="c09.two_columns_through_compile[a,bb; value<=3]"))
+    cs.append(Cond(M, "two_columns_through_compile", {"vlen": 3, "tlen": 3, "h2": ""}, T=900, label="c09.two_columns_through_compile[a,''; value<=3]"))
     cs.append(Cond(M, "two_tables_fixed", T=120))
     cs.append(Cond(M, "two_tables", {"vlen": 1 if q else 2, "tlen": 4 if q else 6}, T=600 if q else 3000))
     cs.append(Cond(M, "twin_never_substitutes", T=60, expect="cex"))
